@@ -104,11 +104,24 @@ func judgeHelper(c *Ctx, k helperCase) {
 			padded = strings.Repeat("0", 16-len(padded)) + padded
 		}
 		want, ok := ref.HexDecode(padded)
-		if ok {
+		switch {
+		case ok && len(padded) == 16:
 			if err != nil || hexs(got) != hexs(want) {
 				bad("wrong-encoding", "a hex timestamp is not decoded to left-padded bytes (8 bytes for up to 16 digits)", hexs(want), fmt.Sprintf("%x err=%v", got, err))
 			}
-		} else if err == nil {
+		case ok:
+			// more than 16 hex digits: "hex timestamps become 8 bytes, malformed text is rejected" - an error, or (when
+			// everything in front of the last 16 digits is zero) exactly those 8 bytes; never another number of bytes
+			if err != nil {
+				c.R.Count("overlong_hex_timestamps_rejected", 1)
+				break
+			}
+			lead, last := padded[:len(padded)-16], padded[len(padded)-16:]
+			w8, _ := ref.HexDecode(last)
+			if len(got) != 8 || strings.Trim(lead, "0") != "" || hexs(got) != hexs(w8) {
+				bad("overlong-timestamp", "a hex timestamp of more than 16 digits is neither rejected nor reduced to its 8 bytes", "an error (or the 8-byte value when only zeros are in front)", fmt.Sprintf("%d bytes %s", len(got), clipS(hexs(got))))
+			}
+		case err == nil:
 			bad("malformed-accepted", "malformed hex is accepted", "an error", hexs(got))
 		}
 	case "ParseDecimalChallengeRFC6287":
@@ -126,6 +139,15 @@ func judgeHelper(c *Ctx, k helperCase) {
 			}
 		} else if !strings.HasPrefix(s, "+") && !strings.HasPrefix(s, "-") && err == nil {
 			bad("malformed-accepted", "malformed decimal text is accepted", "an error", clipS(hexs(got)))
+		} else if (strings.HasPrefix(s, "+") || strings.HasPrefix(s, "-")) && err == nil {
+			// a sign in front: whether that is still a decimal question is not stated, so refusing it is right and so is
+			// taking it as the number it denotes; anything else (another value, sign + non-digits, a negative number) is not
+			rest := s[1:]
+			zero := rest != "" && strings.Trim(rest, "0") == ""
+			want, ok := ref.QuestionToBytes(rest)
+			if !isDigits(rest) || !ok || (s[0] == '-' && !zero) || hexs(got) != hexs(want) {
+				bad("signed-text-approximated", "signed decimal text is accepted with a value other than the number it denotes", "an error, or the encoding of the number written", clipS(hexs(got)))
+			}
 		}
 	case "HexInputToOCRA":
 		var got otp.OCRAInput
